@@ -242,6 +242,12 @@ func (resp *Resp) next() error {
 	var err error
 	c := resp.client
 	req := resp.req
+	// release the throttle of a previous request being replaced (retry of a short read or a seek),
+	// otherwise every retry holds another slot until the host limit is reached and the next retry blocks
+	if resp.throttleDone != nil {
+		resp.throttleDone()
+		resp.throttleDone = nil
+	}
 	// lookup reqHost entry
 	reqHost := c.getHost(req.Host)
 	// create sorted list of mirrors, based on backoffs, upstream, and priority
